@@ -48,7 +48,7 @@ type Reg struct {
 	Seq       bool     `json:"seq,omitempty"`
 	Filter    int      `json:"filter,omitempty"`    // 0 none, 1 accept-all, 2 reject-all, 3 even ids, 4 odd ids
 	Script    [][]Op   `json:"script,omitempty"`    // ops run re-entrantly on the k-th synchronous invocation
-	PanicKind int      `json:"panic,omitempty"`     // 0 none, 1 string, 2 error, 3 struct, 4 nil-deref, 5 panic(nil), 6 typed nil error, 7 long multi-byte message
+	PanicKind int      `json:"panic,omitempty"`     // 0 none, 1 string, 2 error, 3 struct, 4 nil-deref, 5 panic(nil), 6 typed nil error, 7 long multi-byte message, 8 error value of an uncomparable type
 	PanicMod  uint64   `json:"panic_mod,omitempty"` // panics when id%PanicMod==PanicRem (Mod<=1: always)
 	PanicRem  uint64   `json:"panic_rem,omitempty"`
 	CancelAt  int      `json:"cancel_at,omitempty"`  // cancels the publish context on its k-th invocation (1-based), 0 never
@@ -200,6 +200,7 @@ type Engine struct {
 	pubs           map[uint64]*pubInfo
 	captured       []capturedCtx
 	cancels        []context.CancelFunc
+	keepLive       []context.CancelFunc // cancel functions of application contexts that stay live for the whole program
 	persisted      []persistedEv
 	extraObs       *balanceObs
 	obsCtxMismatch string // the first complete callback that was handed another context than its start returned
@@ -253,6 +254,12 @@ type PanicStruct struct {
 	Reg int
 	EID uint64
 }
+
+// ValidationErrors is an error value of a type that cannot be compared (a slice): two of them must
+// never be put on either side of ==.
+type ValidationErrors []string
+
+func (v ValidationErrors) Error() string { return "validation failed: " + strings.Join(v, ", ") }
 
 var errPanic = errors.New("verif: handler panic (error value)")
 
@@ -506,6 +513,8 @@ func describePanic(v any) string {
 		return "string:" + x
 	case PanicStruct:
 		return fmt.Sprintf("struct:%d:%d", x.Reg, x.EID)
+	case ValidationErrors:
+		return "uncomparable:" + strings.Join(x, ":")
 	case error:
 		if errors.Is(x, errPanic) {
 			return "error:verif"
@@ -533,6 +542,8 @@ func expectPanicDesc(kind, reg int, eid uint64) string {
 		return "nilptr:*fs.PathError"
 	case 7:
 		return "string:" + longPanicText(reg, eid)
+	case 8:
+		return fmt.Sprintf("uncomparable:%d:%d", reg, eid)
 	}
 	return ""
 }
@@ -555,6 +566,8 @@ func doPanic(kind, reg int, eid uint64) {
 		panic(e)
 	case 7:
 		panic(longPanicText(reg, eid))
+	case 8:
+		panic(ValidationErrors{fmt.Sprint(reg), fmt.Sprint(eid)})
 	}
 }
 
@@ -813,6 +826,10 @@ func (e *Engine) doPub(op *Op, hctx context.Context) {
 		}
 		base = context.WithValue(base, pubKey{}, eid)
 		if op.Deadline {
+			// the caller's own context type around an application context that stays live
+			live, keep := context.WithCancel(base)
+			e.keepLive = append(e.keepLive, keep)
+			base = live
 			mc := &manualCtx{Context: base, done: make(chan struct{})}
 			f.ctx, f.cancel = mc, mc.fire
 		} else {
